@@ -1178,6 +1178,10 @@ class Interp:
                 a0 = self.ev(args[0], env)
                 if isinstance(a0, SetVal):
                     return SetVal(set(a0.items))
+            if len(args) >= 2:
+                a0, a1 = self.ev(args[0], env), self.ev(args[1], env)
+                if isinstance(a0, Iter) and isinstance(a1, Iter) and a0.v is a1.v and isinstance(a0.v, Vec):
+                    return SetVal(a0.v.items[a0.i:a1.i])
         if cname.startswith("std::basic_ostringstream") or cname.startswith("std::basic_stringstream"):
             return StreamVal()
         if cname.startswith("std::map<"):
@@ -1240,6 +1244,8 @@ class Interp:
             return self.construct(elem, [], None)
         if elem and elem.endswith("*"):
             return None
+        if elem and elem.replace("const ", "").strip().startswith(("std::vector<", "std::list<", "std::map<", "std::set<")):
+            return self.default_value(elem)
         return UNINIT
 
     def e_CXXScalarValueInitExpr(self, n, env):
